@@ -201,6 +201,9 @@ def run(chk, replay=None):
         chk.count(1, ("cast", opt, raw))
         for form, got in res.items():
             if want == "same":
+                # only the two forms are compared - but a documented spelling must not be refused
+                if isinstance(got, str) and got.startswith("EXC "):
+                    chk.violation({"kind": "cast", "opt": opt, "form": form}, "%s form of %s=%r is refused: %s" % (form, opt, raw, got), replay={"cast": item})
                 continue
             if got != json.loads(want):
                 chk.violation({"kind": "cast", "opt": opt, "form": form},
